@@ -1,5 +1,6 @@
 (* C17 — property theorems only. Each is closed by `exact` of a lemma proved elsewhere. *)
 From FunV Require Import Base.Tac Base.ListX Model.SortSpec Proofs.SortSpec_proofs.
+From FunV Require Import Model.ListHeap Proofs.ListHeap_wf Proofs.ListHeap_loops Proofs.ListHeap_c17.
 
 (* IsSorted(lt) is true exactly when no adjacent pair is out of order (any lt, any list). *)
 Theorem C17_is_sorted_iff :
@@ -27,3 +28,60 @@ Theorem C17_heap_pops_minimal :
   forall (lt : Z -> Z -> bool), strict_weak_order lt -> forall ops, pops_minimal lt [] ops.
 Proof. exact heap_pops_minimal_from_empty. Qed.
 Print Assumptions C17_heap_pops_minimal.
+
+(* ---------------------------------------------------------------- sorting on the pointer-level model of dt.List
+   (Model/ListHeap.v; WF w E is the C16 invariant with ghost element lists E; abs w E l = the values of list l) *)
+
+(* the pointer-level IsSorted computes the list-level is_sorted of the list's values and changes nothing *)
+Theorem C17_is_sorted_model :
+  forall lt w E l, WF w E -> (l < lfresh w)%nat -> IsSorted lt l w = Ret (is_sorted lt (abs w E l)) w.
+Proof. exact IsSorted_spec. Qed.
+Print Assumptions C17_is_sorted_model.
+
+(* SortMerge (as fixed), for EVERY comparison function: it terminates without panic, the list holds a
+   permutation of its previous elements (same element handles, same values) ... *)
+Theorem sort_merge_perm :
+  forall lt w E l, WF w E -> (l < lfresh w)%nat ->
+    exists w' E', SortMerge lt l w = Ret tt w' /\ WF w' E' /\
+      Permutation (E' l) (E l) /\ Permutation (abs w' E' l) (abs w E l).
+Proof. exact sort_merge_perm_l. Qed.
+Print Assumptions sort_merge_perm.
+
+(* ... in which no element is lt its predecessor (only asymmetry of lt is needed) ... *)
+Theorem sort_merge_sorted :
+  forall lt, (forall a b, lt a b = true -> lt b a = false) ->
+  forall w E l, WF w E -> (l < lfresh w)%nat ->
+    exists w' E', SortMerge lt l w = Ret tt w' /\ WF w' E' /\ sorted lt (abs w' E' l).
+Proof. exact sort_merge_sorted_l. Qed.
+Print Assumptions sort_merge_sorted.
+
+(* ... and the list stays fully usable: the result is well-formed (so every C16 theorem applies to
+   what follows), every element is owned by the receiver (In(l) holds), other lists are untouched. *)
+Theorem sort_merge_usable :
+  forall lt w E l, WF w E -> (l < lfresh w)%nat ->
+    exists w' E', SortMerge lt l w = Ret tt w' /\ WF w' E' /\ (l < lfresh w')%nat /\ owned_by w' l (E' l) /\
+      (forall l0, (l0 < lfresh w)%nat -> l0 <> l -> E' l0 = E l0 /\ abs w' E' l0 = abs w E l0).
+Proof. exact sort_merge_usable_l. Qed.
+Print Assumptions sort_merge_usable.
+
+(* SortQuick = pop all; sort.SliceStable; re-append.  For every sorter meeting the stable-sort contract
+   (permutation, sorted, equal keys keep their relative order): permutation of the same elements,
+   sorted, STABLE on element handles, well-formed, owned by the receiver, other lists untouched. *)
+Theorem sort_quick_perm_sorted_stable :
+  forall lt sorter, stable_sort_contract lt sorter ->
+  forall w E l, WF w E -> (l < lfresh w)%nat ->
+    exists w' E', SortQuickWith sorter l w = Ret tt w' /\ WF w' E' /\ (l < lfresh w')%nat /\
+      Permutation (E' l) (E l) /\ Permutation (abs w' E' l) (abs w E l) /\
+      sorted lt (abs w' E' l) /\
+      stable_wrt lt (fun n => nitem (nodes w n)) (E l) (E' l) /\
+      owned_by w' l (E' l) /\
+      (forall l0, (l0 < lfresh w)%nat -> l0 <> l -> E' l0 = E l0 /\ abs w' E' l0 = abs w E l0).
+Proof. exact SortQuick_outcome. Qed.
+Print Assumptions sort_quick_perm_sorted_stable.
+
+(* the executable sorter of the model (the one compared with the real sort.SliceStable on every run)
+   meets the contract for every strict weak order *)
+Theorem sort_quick_model_sorter_ok :
+  forall lt, strict_weak_order lt -> stable_sort_contract lt (stable_sort lt).
+Proof. exact stable_sort_meets_contract. Qed.
+Print Assumptions sort_quick_model_sorter_ok.
